@@ -618,7 +618,11 @@ class _ExtendedTypeFetcher(Thread):
                 self._req_param = struct.unpack('<H', pk.data[1:3])[0]
                 self._cf.send_packet(pk, expected_reply=(tuple(pk.data[:3])))
             else:
-                self._lock.release()
+                try:
+                    self._lock.release()
+                except RuntimeError:
+                    # Already released by _close()
+                    pass
 
 
 class _ParamUpdater(Thread):
